@@ -158,7 +158,7 @@ static void build(void)
 	b = mk(&n, "POST /p HTTP/1.1\r\nTransfer-Encoding: chunked\r\n\r\nEA60\r\n%s\r\n0\r\n\r\n%s", a20k, next); add_big("chunk-60000", b, n, 0);
 	b = mk(&n, "POST /p HTTP/1.1\r\nTransfer-Encoding: chunked\r\n\r\n%s0\r\n\r\n%s", chunks2k, next); add_big("chunks-5000x6", b, n, 0);
 	b = mk(&n, "POST /p HTTP/1.1\r\nTransfer-Encoding: chunked\r\n\r\n%s", ones); add_big("endless-chunk-size-line", b, n, 0);
-	b = mk(&n, "POST /p HTTP/1.1\r\nTransfer-Encoding: chunked\r\n\r\n3\r\nabc\r\n5 %s", a20k); add_big("endless-chunk-size-padding", b, n, 0);
+	b = mk(&n, "POST /p HTTP/1.1\r\nTransfer-Encoding: chunked\r\n\r\n3\r\nabc\r\n5 %s", a20k); add_big("endless-chunk-size-line", b, n, 0);   /* same class: size digits, then endless padding */
 	b = mk(&n, "POST /p HTTP/1.1\r\nTransfer-Encoding: chunked\r\n\r\n3\r\nabc\r\n0\r\nT: %s", a20k); add_big("endless-trailer-line", b, n, 1);
 	b = mk(&n, "POST /p HTTP/1.1\r\nTransfer-Encoding: chunked\r\n\r\n3\r\nabc\r\n0\r\n%s", lines2k); add_big("endless-trailer-lines", b, n, 1);
 
@@ -240,10 +240,11 @@ static void item(uint64_t it)
 
 	/* ---- answered: a complete over-limit message gets 413/400 or a close ---- */
 	if (k->complete && (over_h || over_b)) {
-		MC_COUNT(over_h ? "over_header_limit_cases" : "over_body_limit_cases");
+		if (over_h) MC_COUNT("over_header_limit_cases"); else MC_COUNT("over_body_limit_cases");
 		int st = s.nfinal ? s.final[0] : 0;
 		if (s.nreq == 0) {
-			if (st == 413 || st == 400) MC_COUNT(st == 413 ? "answered_413" : "answered_400");
+			if (st == 413) MC_COUNT("answered_413");
+			else if (st == 400) MC_COUNT("answered_400");
 			else if (st == 0 && s.eof) MC_COUNT("answered_close");
 			else if (st == 0) failk("over-limit-left-pending", k, "the complete message exceeds a limit but was neither answered nor was the connection closed");
 			else failk("over-limit-wrong-status", k, "answered with status %d", st);
